@@ -17,8 +17,8 @@ for d in sorted(glob.glob(os.path.join(VERIF, "seeded", "C*"))):
         what = what[:227] + "…"
     files = ", ".join(m.get("files_changed", []))[:80]
     ok = all(v.get(k) for k in ("build_ok", "library_suite_passes_with_patch", "demo_fails_with_patch", "demo_passes_on_clean_tree")) if v else False
-    status = "caught by " + ", ".join(caught) if caught else ("MISSED by the quick tier" if name in ("C07-w9-1", "C18-w9-1", "C10-w10-1") else "MISSED")
-    if name in ("C07-w9-1", "C18-w9-1", "C10-w10-1"):
+    status = "caught by " + ", ".join(caught) if caught else ("MISSED by the quick tier" if name in ("C07-w9-1", "C18-w9-1", "C10-w10-1", "C14-w11-1") else "MISSED")
+    if name in ("C07-w9-1", "C18-w9-1", "C10-w10-1", "C14-w11-1"):
         status += " (caught by the thorough tier)"
     if missed and caught:
         status += " (not by " + ", ".join(missed) + ")"
@@ -36,7 +36,7 @@ out.append("imitate maintenance work (standard-library modernisation, a feature 
 out.append("refactoring, an over-correcting bug fix), wave 7 (`-w7-`) was clause-targeted and adversarial: the sub-agent was told what kind of")
 out.append("harness is being evaluated (reference readers, structural checks, boundary sweeps, models, fresh-process comparison, race workloads) and")
 out.append("asked to split the property into clauses and break the two clauses such a harness is least likely to verify; wave 8 (`-w8-`) repeated that")
-out.append("with a description of everything the harness had learnt by then, and waves 9 and 10 (`-w9-`, `-w10-`) once more each. I re-confirmed every one")
+out.append("with a description of everything the harness had learnt by then, and waves 9, 10 and 11 (`-w9-`, `-w10-`, `-w11-`: one change per property) once more each. I re-confirmed every one")
 out.append("(build, library suite green, demonstration fails with / passes without the patch — column *ok*) and ran the quick tier of the")
 out.append("targeted property against the patched copy (`tools/seeded.py`, recorded in each `meta.json`). † = the check missed it at first and")
 out.append("was strengthened (what changed is in `meta.json` → `strengthening_needed` and summarised in 12.3).\n")
@@ -46,7 +46,8 @@ for r in rows:
     out.append(f"| {r[0]} | {r[1]} | {r[2]} | {r[3].replace('|', '/')} | {r[4]} | {'yes' if r[5] else 'NO'} |")
 n = len(rows)
 c = sum(1 for r in rows if r[4].startswith("caught"))
-out.append(f"\n{c} of {n} seeded changes are caught by the quick tier of a registered check.\n")
+out.append(f"\n{c} of {n} seeded changes are caught by the quick tier of a registered check; `C07-w9-1`, `C18-w9-1`, `C10-w10-1` and `C14-w11-1` (they need "
+           "millions of characters) by the thorough tier only; `C10-w9-1`, `C04-w11-1` (32-bit builds only) and `C10-w11-1` (in my reading not a violation) are not caught (§8).\n")
 # ---- own mutants
 try:
     mm = json.load(open(os.path.join(VERIF, "tools", "mutants.last.json")))
